@@ -1,10 +1,12 @@
 import KawinV.Proto
 import KawinV.Model.TempSched
 import KawinV.Model.Lookup
+import KawinV.Model.HashCache
 /-! driver verbs for C13 (Float instance of the schedule and lookup models).
 Each line is a complete case: the whole constructor/setter sequence, or the whole call history. -/
 namespace KawinV.Drv.C13
 open KawinV.Proto KawinV.TempSched KawinV.Lookup
+open KawinV.HashCache (Cfg Table keyCast)
 
 /-- the callable family used on both sides: hold `a` until `c`, then ramp with rate `b` -/
 def rampFn (a b c : Float) : Float → Float := fun t => if t < c then a else a + b * (t - c)
@@ -141,6 +143,36 @@ def world : P String := do
       (w, acc.2 ++ [showWorld d z ts w.store ((List.range w.objs.length).map w.obj)])) (⟨store, []⟩, [])
     pure (" ".intercalate r.2)
 
+def dev : P (DEv Float) := do
+  let k ← tok
+  match k with
+  | "E" => do let b ← bool; pure (.enable b)
+  | "C" => pure .clear
+  | "S" => do let s ← nat; pure (.setSens s)
+  | "F" => do let t ← flt; let xs ← lst flts; pure (.flux t xs)
+  | _ => failure
+
+def showFlux (o : Option (FluxObs Float (List Float × Float))) : String :=
+  match o with
+  | none => "E"
+  | some ob => "O " ++ flist ob.temps ++ s!" {ob.vals.length} " ++
+      " ".intercalate (ob.vals.map (fun v => flist v.1 ++ " " ++ fout v.2))
+
+/-- df.run  key(0 = the code: every component ×10^s, int64; 1 = temperature left unscaled)
+    nOps op… (constructor/setter sequence of the diffusion TemperatureParameters)  z  nEv ev…
+    ev = E bool | C | S digits | F t nNodes x…     (control calls and flux evaluations, in call order)
+    → per flux evaluation: E (raises) or the temperature handed over per node and, per node, the
+      (composition, temperature) the value in use was computed at -/
+def dfrun : P String := do
+  let v ← nat; let ops ← lst (top rampFnZ); let z ← flts; let evs ← lst dev
+  let s := ops.foldl dApply (DState.ctor .other)
+  let temp : Float → Option (List Float) := fun t => s.eval z t
+  let init : Table (List Int) (List Float × Float) := KawinV.HashCache.init
+  let outs :=
+    if v == 0 then (runDiff Cfg.fixed (keyCast 64) prov temp init evs).2
+    else (runDiff Cfg.fixed (keyKelvinCast 64) prov temp init evs).2
+  pure (" ".intercalate (outs.map showFlux))
+
 def handle (verb : String) : Option (P String) :=
   match verb with
   | "ts.prec" => some prec
@@ -148,6 +180,7 @@ def handle (verb : String) : Option (P String) :=
   | "interp" => some interp
   | "lk.run" => some lkrun
   | "ts.world" => some world
+  | "df.run" => some dfrun
   | _ => none
 
 end KawinV.Drv.C13
